@@ -41,3 +41,12 @@ pub assume_specification<T, E, U, F: FnOnce(T) -> Result<U, E>> [core::result::R
     where F: core::marker::Destruct, T: core::marker::Destruct, E: core::marker::Destruct,
     requires r matches Ok(v) ==> f.requires((v,)),
     ensures r matches Err(e) ==> o == Err::<U, E>(e), r matches Ok(v) ==> f.ensures((v,), o);
+pub assume_specification<T, A: core::alloc::Allocator> [Vec::<T, A>::shrink_to_fit] (v: &mut Vec<T, A>)
+    ensures final(v)@ == old(v)@;
+// std documents: "The absolute value of i64::MIN cannot be represented as an i64, and attempting to calculate it will
+// cause an overflow" (panic with overflow checks, i64::MIN without): a precondition here.
+pub assume_specification [i64::abs] (x: i64) -> (r: i64)
+    requires x != i64::MIN,
+    ensures r == (if x < 0 { -x } else { x as int });
+pub assume_specification [i64::unsigned_abs] (x: i64) -> (r: u64)
+    ensures r == (if x < 0 { -x } else { x as int });
